@@ -10,7 +10,8 @@ CTXC = 'tbox::http::server::Context'
 
 def scope_units():
     us = []
-    for pat in ('http/*.cpp', 'http/server/*.cpp', 'http/client/*.cpp', 'util/string.cpp', 'util/buffer.cpp'):
+    for pat in ('http/*.cpp', 'http/server/*.cpp', 'http/client/*.cpp', 'util/string.cpp', 'util/buffer.cpp',
+                'network/buffered_fd.cpp', 'network/tcp_connection.cpp', 'network/tcp_server.cpp'):
         for p in sorted(glob.glob(MODULES + '/' + pat)):
             if not p.endswith('_test.cpp'):
                 us.append(p[len(MODULES) + 1:])
@@ -236,6 +237,88 @@ def r5(ctx, prog):
         ctx.ob('C12.R5', '%s|close-after-last' % sc.name, False, 'onTcpSendCompleted never disconnects: the connection stays open after the close response', where=sc.loc(sc.body))
 
 
+def r7(ctx, prog):
+    ctx.rule('C12.R7', 'A12 boundary agreement: close_index is the index of the closing request, whose response must still be sent; every comparison of '
+             'res_index / a response index with close_index draws the line at the same place ("past the last" == index > close_index)', floor=1)
+    n = 0
+    for f in prog.funcs.values():
+        if not f.file.endswith('http/server/server_imp.cpp'):
+            continue
+        for st in f.stmts:
+            if not st or st['k'] != 'BinaryOperator' or st.get('op') not in ('<', '<=', '>', '>=', '==', '!='):
+                continue
+            l, r = st['ch']
+            fl, fr = (f.field_of(l) or '').split('::')[-1], (f.field_of(r) or '').split('::')[-1]
+            if 'close_index' not in (fl, fr):
+                continue
+            other, oid = (fl, l) if fr == 'close_index' else (fr, r)
+            op = st['op'] if fr == 'close_index' else {'<': '>', '>': '<', '<=': '>=', '>=': '<=', '==': '==', '!=': '!='}[st['op']]
+            ov = f.s(f.strip_casts(oid))
+            if ov is not None and ov.get('cv') is not None or 'numeric_limits' in ' '.join(str(x.get('callee', '')) for x in q.subtree_calls(f, oid)):
+                continue        # comparison with the "unset" sentinel, not with an index
+            if other not in ('res_index', 'req_index') and f.path(oid) not in ('index',):
+                raise AnalysisBroken('unrecognised comparison with close_index at %s' % f.loc(st['i']))
+            n += 1
+            ok = op in ('>', '<=')
+            ctx.ob('C12.R7', '%s|%s %s close_index' % (f.name, f.path(oid), op), ok,
+                   'boundary "index %s close_index" agrees with the definition (the response numbered close_index is still sent)' % op if ok else
+                   'comparison "%s %s close_index" draws the boundary one off: the closing request\'s own response is treated as %s' %
+                   (f.path(oid), op, 'not to be sent' if op in ('<', '>=') else 'special'), where=f.loc(st['i']))
+    if n < 1:
+        raise AnalysisBroken('no comparison against close_index found')
+
+
+def r8(ctx, prog):
+    ctx.rule('C12.R8', 'A4+A6 no self-inflicted end-of-stream: the transport reports read()==0 as "peer closed" and the HTTP layer then deletes the '
+             'connection record with its parked responses (chain re-derived from the sources on every run), so the server must not shut down the '
+             'read side of a connection that may still owe a response', floor=4)
+    NET = 'tbox::network::'
+    # link 1: BufferedFd::onReadCallback invokes read_zero_cb_ when the read returned 0
+    rcb = prog.fn1(NET + 'BufferedFd::onReadCallback')
+    inv = q.invokes(rcb, 'read_zero_cb_')
+    if not inv:
+        raise AnalysisBroken('teardown chain changed: BufferedFd::onReadCallback no longer invokes read_zero_cb_ (re-derive C12.R8)')
+    ctx.ob('C12.R8', 'chain|read-zero', True, 'BufferedFd::onReadCallback reports a zero-length read through read_zero_cb_', where=rcb.loc(inv[0]['i']))
+    # link 2: TcpConnection binds read_zero_cb_ to onSocketClosed, which disables the fd, drops the BufferedFd (send queue included) and reports the disconnect
+    bound = False
+    for f in prog.funcs.values():
+        if f.name.startswith(NET + 'TcpConnection::'):
+            for c in f.calls():
+                if c.get('fn') == 'setReadZeroCallback' and any('onSocketClosed' in str(prog_s.get('q') or prog_s.get('n') or '') for a in c.get('args', ()) for prog_s in (f.stmts[x] for x in f.walk(a)) if prog_s):
+                    bound = True
+    osc = prog.fn1(NET + 'TcpConnection::onSocketClosed')
+    if not bound or not q.invokes(osc, 'disconnected_cb_'):
+        raise AnalysisBroken('teardown chain changed: TcpConnection no longer maps read-zero to onSocketClosed -> disconnected_cb_ (re-derive C12.R8)')
+    ctx.ob('C12.R8', 'chain|socket-closed', True, 'TcpConnection binds read_zero_cb_ to onSocketClosed, which invokes disconnected_cb_', where=osc.loc(osc.body))
+    # link 3: the HTTP layer deletes the connection record on disconnect
+    otd = prog.fn1(IMPL + '::onTcpDisconnected')
+    dels = [st for st in otd.stmts if st and st['k'] == 'CXXDeleteExpr']
+    if not dels:
+        raise AnalysisBroken('teardown chain changed: Server::Impl::onTcpDisconnected no longer deletes the connection record (re-derive C12.R8)')
+    ctx.ob('C12.R8', 'chain|record-deleted', True, 'Server::Impl::onTcpDisconnected deletes the connection record (parked responses included)', where=otd.loc(dels[0]['i']))
+    # the rule: no read-side shutdown by the HTTP server unless every owed response was already sent (res_index > close_index)
+    n = 0
+    for f in prog.funcs.values():
+        if not f.file.startswith(MODULES + '/http/server/'):
+            continue
+        for c in f.calls():
+            if c.get('fn') != 'shutdown' or not (c.get('cls', '').startswith(NET + 'Tcp') or c.get('callee') == 'shutdown'):
+                continue
+            how = f.s(f.strip_casts(c['args'][-1])).get('cv') if c.get('args') else None
+            n += 1
+            if how == 1:     # SHUT_WR only
+                ctx.ob('C12.R8', '%s|shutdown(SHUT_WR)' % f.name, True, 'write-side shutdown does not produce a local end-of-stream', where=f.loc(c['i']))
+                continue
+            g = f.cfg.controlling_branches(q.pt(f, c))
+            done = any({'res_index', 'close_index'} <= {x.split('::')[-1] for x in q.subtree_fields(f, cond)} and f.s(f.strip_casts(cond)).get('op') == '>' and k == 0 for cond, k, b in g)
+            ctx.ob('C12.R8', '%s|shutdown(%s)' % (f.name, {0: 'SHUT_RD', 2: 'SHUT_RDWR'}.get(how, '?')), done,
+                   'read-side shutdown only after the last response was sent' if done else
+                   'the server shuts down the read side of a connection that still owes responses: the next loop pass reads 0, TcpConnection::onSocketClosed '
+                   'drops the send queue and onTcpDisconnected deletes the record — the response of a handler that completes later (and the unsent tail of a large one) is lost',
+                   where=f.loc(c['i']))
+    ctx.ob('C12.R8', 'http/server|shutdown-sites', True, '%d transport shutdown call(s) in http/server examined' % n)
+
+
 def r6(ctx, prog):
     ctx.rule('C12.R6', 'A7: onTcpReceived does not touch the connection record after deleting it', floor=1)
     f = prog.fn1(IMPL + '::onTcpReceived')
@@ -257,4 +340,6 @@ def run(ctx):
     ctx.guard(r4, ctx, prog)
     ctx.guard(r5, ctx, prog)
     ctx.guard(r6, ctx, prog)
+    ctx.guard(r7, ctx, prog)
+    ctx.guard(r8, ctx, prog)
     return prog
